@@ -16,7 +16,11 @@ import (
 
 	z "github.com/Oudwins/zog"
 	"github.com/Oudwins/zog/conf"
+	"github.com/Oudwins/zog/i18n"
+	"github.com/Oudwins/zog/i18n/en"
+	"github.com/Oudwins/zog/i18n/es"
 	"github.com/Oudwins/zog/parsers/zjson"
+	"github.com/Oudwins/zog/zconst"
 	"github.com/Oudwins/zog/zhttp"
 
 	"zogverif/mc"
@@ -273,6 +277,71 @@ func c09LargeListsScenario(x *mc.X) *mc.Outcome {
 	return out
 }
 
+// The language tables installed with i18n are a map too: which table words an issue must not depend on how that
+// map is iterated or in which order the tables were inserted. Tables for en, es and es-AR (own wording) plus pt;
+// the call names a regional variant that has no table, one that has, a language without table, or none.
+func c09LangTableScenario(x *mc.X) *mc.Outcome {
+	lang := []string{"es-MX", "es_MX", "es-AR", "es", "pt-BR", "fr", ""}[x.Choose(7, "context language")]
+	def := []string{"en", "es"}[x.Choose(2, "default language")]
+	reverse := x.Bool("tables inserted in reverse order")
+	ar := zconst.LangMap{}
+	for t, sec := range es.Map {
+		ar[t] = map[zconst.ZogIssueCode]string{}
+		for c, m := range sec {
+			ar[t][c] = "che: " + m
+		}
+	}
+	pt := zconst.LangMap{zconst.TypeString: {"min": "texto curto ({{min}})", "default": "texto inválido"}, zconst.TypeNumber: {"gt": "número pequeno ({{gt}})", "default": "número inválido"}}
+	names := []string{"en", "es", "es-AR", "pt"}
+	tables := []zconst.LangMap{en.Map, es.Map, ar, pt}
+	run := func(om zh.OrderMode) *Obs {
+		zh.Reset()
+		zh.Install(x, zh.PoolLIFO, om)
+		saved := conf.IssueFormatter
+		defer func() { conf.IssueFormatter = saved }()
+		m := map[string]zconst.LangMap{}
+		if reverse {
+			for i := len(names) - 1; i >= 0; i-- {
+				m[names[i]] = tables[i]
+			}
+		} else {
+			for i := range names {
+				m[names[i]] = tables[i]
+			}
+		}
+		i18n.SetLanguagesErrsMap(m, def)
+		s := z.Struct(z.Schema{"name": z.String().Min(5), "age": z.Int().GT(18), "nick": z.String().Min(4)})
+		var d struct {
+			Name, Nick string
+			Age        int
+		}
+		var opts []z.ExecOption
+		if lang != "" {
+			opts = append(opts, z.WithCtxValue("lang", lang))
+		}
+		o := RunParse(s, map[string]any{"name": "ab", "age": 3, "nick": "x"}, reflect.ValueOf(&d), opts...)
+		zh.Reset()
+		return o
+	}
+	c09Messages = true
+	defer func() { c09Messages = false }()
+	bo, po := run(zh.OrderSorted), run(zh.OrderFree)
+	render := func(o *Obs) []string {
+		var out []string
+		for _, is := range o.Issues {
+			out = append(out, is.Key+"|"+is.Code+"|"+is.Msg)
+		}
+		return out
+	}
+	out := &mc.Outcome{Traces: 2, Nontrivial: true, Sig: fmt.Sprintf("langs|%s|%s|%v|%v", lang, def, reverse, render(bo))}
+	out.Sample = map[string]any{"context_language": lang, "default": def, "reverse_insertion": reverse, "issues": render(bo)}
+	if bo.Panic != po.Panic || !eqStrings(render(bo), render(po)) {
+		x.Note("i18n tables en, es, es-AR, pt (default %s, inserted in reverse=%v); the call names language %q", def, reverse, lang)
+		out.Viol = append(out.Viol, &mc.Violation{Key: "C09:language-table-order", What: "which language table words an issue depends on the iteration order of the installed tables", Expected: fmt.Sprint(render(bo)), Observed: fmt.Sprint(render(po))})
+	}
+	return out
+}
+
 // Many records that are rejected (a scalar where a record is expected) next to sibling records that are fine:
 // whatever the library counts while rejecting must not spill over into the siblings, in any visit order.
 type c09RejRec struct{ A string }
@@ -407,6 +476,7 @@ func init() {
 			items = append(items, Item{Name: "large-sibling-lists", MaxDevs: -1, Run: c09LargeListsScenario})
 			items = append(items, Item{Name: "shared-error-value", MaxDevs: -1, Run: c09SharedIssueScenario})
 			items = append(items, Item{Name: "rejected-records-next-to-records", MaxDevs: -1, Run: c09RejectedRecordsScenario})
+			items = append(items, Item{Name: "language-tables", MaxDevs: -1, Run: c09LangTableScenario})
 			// every message is the formatter's answer for its own issue, whatever was formatted just before it:
 			// the shape grammar and the small catalogue skeletons again, under a formatter that names path and code
 			for _, it := range coreItemsFiltered(tier, c09Scenario, func(a *Alpha) { a.Lite = true }, []int{0, 1}, 2, func(ns NamedSkel) bool {
